@@ -394,6 +394,8 @@ SPEC_FACTS = [
     ("var i = 0, out = []; do { i++; out.push(i); if (i < 3) continue; } while (false); print(out.join());", ["1"]),
     ("var out = []; outer: do { for (var j = 0; j < 2; j++) { out.push(j); if (j === 1) continue outer; } } while (false); print(out.join());", ["0,1"]),
     ("var n = 0; do { try { n++; continue; } finally { n += 10; } } while (n < 5); print(n);", ["11"]),
+    ("var i, c = true; print(eval('i = 0; while (i < 1) { i = i + 1; { break; 8; } 9; }'), eval('1; l: { break l; }'), eval('l: { 1; if (c) { break l; } 2; }'), eval('l: { 1; { break l; } 2; }'), eval('i = 0; for (;;) { i++; { if (i > 2) break; } i; }'), eval('switch (1) { case 1: 5; { break; } case 2: 6; }'), eval('i = 0; while (i < 2) { i++; 3; { continue; } 4; }'), eval('3; l: ;'), eval('i = 0; while (i < 3) { i++; if (i == 2) { continue; } i * 10; }'));", ["1 1 undefined 1 undefined 5 3 3 30"]),
+    ("var i; print(eval('i = 0; while (i < 1) { i = i + 1; { break; } }'), eval('i = 0; while (i < 2) { i = i + 1; { continue; } }'), eval('l: { 5; { break l; } }'), eval('i = 0; while (i < 1) { i = i + 1; { { break; } } }'), eval('i = 0; while (i < 1) { i = i + 1; if (i) { break; } }'), eval('i = 0; while (i < 1) { i = i + 1; try { break; } finally { } }'));", ["1 2 5 1 undefined undefined"]),
     ("var i = 0; function f() { return i++ < 1; } function* g() { yield 1; } print(eval('3; var y = f();'), eval('i = 0; do { 7; } while (f())'), eval('try { 8; } finally { f(); }'), eval('var it = g(); 5; var r = it.next();'), eval('4; let z = `${ {toString() { return 1; }} }`;'));", ["3 7 8 5 4"]),
     ("var i = 0; print(eval('do { i++; { 7; } if (i === 4) { 1; } } while (i < 1)'), eval('l: { { 7; } if (i === 4) { 1; } }'), eval('switch (0) { case 0: { 7; } try { } catch { } }'), eval('do { { 7; } with ({}) { } } while (false)'), eval('do { { 7; } for (var k in {}) { } } while (false)'), eval('do { { 7; } l: { } } while (false)'));", ["undefined undefined undefined undefined undefined 7"]),
     ("print(eval('1; do { 2; continue; } while (false)'), eval('3; do { } while (false)'), eval('4; for (var q = 0; q < 1; q++) { 5; continue; }'));", ["2 undefined 5"]),
